@@ -4,6 +4,11 @@ NOTES = ("All checks run /venv/bin/python on bitstring imported from /repo's wor
          "known_findings.json lists genuine defects (open: reported as KNOWN-FINDING; fixed: suppress nothing).")
 NOT_APPLICABLE = {}
 CHECKS = {
+ 'C15': dict(
+    text="Bounded exhaustive total classification: every (dtype, length, value) in the stated menus - lengths valid and invalid (negative, zero, non-whole-byte for endian types, not 16/32/64 for floats, not 1 for bool), integer values at, just inside and just outside every range limit (exhaustively for small widths), valid and invalid digit strings, token lengths that disagree with the value, and every (offset, length) window incl. negative and beyond-the-end ones for bytes=, bitarray=, BytesIO, filename= and file handles - is pushed through every creation route, through property assignment on a non-empty object and through Array setitem/append/insert/extend/slice assignment; the outcome must be the classification computed from the definitions: exact success, or a ValueError with nothing created and the target unchanged.",
+    design_ref="DESIGN.md section 4 C15",
+    note="CreationError is an alias of ValueError here; any ValueError subclass counts as the documented rejection. Wrong value *types* are out of scope (C20).",
+    technique="explicit-state bounded exhaustive enumeration (product explorer) with a total accept/reject classification oracle"),
  'C02': dict(
     text="Bounded exhaustive exploration of (dtype, length, value) x route x class: every fixed-length dtype and alias, every legal length in the stated lists, all values for small widths and the boundary family above, all 65536 binary16 patterns and an exponent x mantissa family for binary32/64; each value is built through 14 creation routes (keyword+length, sized keyword, sized/unsized property assignment, both token spellings, Dtype.build both spellings, pack with positional/embedded/keyword length and value, fromstring, Array) on all four classes and compared with an independent encoder (int arithmetic / format(), struct.pack, byte reversal), and read back through 9 reading routes; conversely every bit pattern of each small valid width is interpreted and rebuilt.",
     design_ref="DESIGN.md section 4 C02",
